@@ -10,6 +10,7 @@ require (
 require (
 	github.com/armon/go-radix v1.0.0 // indirect
 	github.com/ulikunitz/xz v0.5.10 // indirect
+	golang.org/x/exp v0.0.0-20200224162631-6cc2880d07d6 // indirect
 )
 
 replace github.com/evolbioinfo/goalign => /repo
